@@ -384,6 +384,11 @@ def file_level(ck, pid, tier):
         mapfile = os.path.join(base, "ip.map")
         if pid == "C17":
             hb += ["-d", mapfile]
+        if pid == "C17" and si % 2 == 0:
+            # the map path already holds the map of an earlier, unrelated run: it must be replaced, not extended
+            ind0 = os.path.join(base, "in0")
+            write_tree(ind0, sample_files(rng(pid, "files-earlier", si), nfiles=2, nlines=8))
+            run_main(["-a", "-s", "earlier-salt", "-i", ind0, "-o", os.path.join(base, "out0"), "-d", mapfile], hashseed=0)
         # run 1: whole directory, one process
         out1 = os.path.join(base, "out1")
         rc, err = run_main(["-a", "-s", salt, "-i", ind, "-o", out1] + hb, hashseed=si)
@@ -444,6 +449,31 @@ def file_level(ck, pid, tier):
             except Exception as e:
                 ev.append({"ev": "exc", "what": "anonymize_io: %r" % (e,)})
                 texts.append(("io", "EXC"))
+        if pid == "C03":
+            # one long-lived pair of anonymizer objects asked to anonymize and to undo the SAME text, interleaved
+            try:
+                a4, a6 = cfg.make()
+                texts_in = [ln for name in sorted(files) for ln in files[name].split("\n") if ln][:14]
+                fwd = [rewrite_stagewise(cfg, a4, a6, ln) for ln in texts_in]
+                for ln, o in zip(texts_in, fwd):
+                    ev.append({"ev": "line", "in": cps(ln), "out": cps(o)})
+                    texts.append((ln, o))
+                ucfg = Cfg(salt, ps4=cfg.ps4, ps6=cfg.ps6, undo=True)
+                ev.append({"ev": "mode", "undo": True})
+                texts.append(None)
+                for ln in texts_in[:7] + fwd[:7]:                      # originals and images, undone on the same objects
+                    o = rewrite_stagewise(ucfg, a4, a6, ln)
+                    ev.append({"ev": "line", "in": cps(ln), "out": cps(o)})
+                    texts.append((ln, o))
+                ev.append({"ev": "mode", "undo": False})
+                texts.append(None)
+                for ln in texts_in[:7]:
+                    o = rewrite_stagewise(cfg, a4, a6, ln)
+                    ev.append({"ev": "line", "in": cps(ln), "out": cps(o)})
+                    texts.append((ln, o))
+            except Exception as e:
+                ev.append({"ev": "exc", "what": "interleaved directions: %r" % (e,)})
+                texts.append(("interleaved", "EXC"))
         if pid == "C02":
             # undo in a fresh process that has never seen the originals
             out2 = os.path.join(base, "undone")
